@@ -218,6 +218,11 @@ def gen(rng, tier):
             enc = rng.choice(["names", "names", "idx", "mixed"])
             if enc != "names":
                 route = [(names.index(x) if x in names and (enc == "idx" or rng.random() < 0.5) else x) for x in route]
+            if rng.random() < 0.05 and len(route) >= 3 and all(isinstance(x, int) for x in route):
+                # a node position below zero is no node (Python's negative indexing would read it as "the k-th node from the end")
+                j = rng.randint(1, len(route) - 2)
+                if 0 < route[j] < len(names):
+                    route[j] = route[j] - len(names)
             ops.append(["R", route])
             if rng.random() < 0.15:
                 ops.append(["R", list(route)])                                                          # same route again
@@ -256,7 +261,9 @@ def same_route_reply(a, b):
 
 
 def stop_tok(x):
-    return f"i:{x}" if isinstance(x, int) else f"n:{x}"
+    # (the model's positions are natural numbers: a negative position is handed over as a position beyond every node — both are
+    # "no node", and a route through it must be rejected)
+    return (f"i:{x}" if x >= 0 else "i:9999") if isinstance(x, int) else f"n:{x}"
 
 
 def run_case(case, drv):
@@ -349,6 +356,14 @@ def run_case(case, drv):
             if feas is True or f2 is True:
                 res.fail("route:accepted-without-vehicle-data", f"route {route} accepted although capacity / initial loading are unset")
             res.features.append("vehicle-data-unset:" + ("raised" if feas is None else "rejected"))
+            continue
+        if any(isinstance(x, int) and x < 0 for x in route):
+            if feas is True or f2 is True:
+                res.fail("route:negative-position-accepted", f"route {route} with a node position below zero accepted (it aliases a route through node {[x % len(names) for x in route if isinstance(x, int) and x < 0]})")
+            if [list(r) for r in o.routes] != pool_before:
+                res.fail("route:error-changed-pool", f"route {route} changed the pool although it was not accepted")
+            res.features.append("route:negative-position")
+            rej += 1
             continue
         # ---------- oracle
         unknown = [x for x in route if isinstance(x, str) and x not in names]
